@@ -545,8 +545,7 @@ def run(ctx):
         'a file name longer than 255 bytes cannot be opened (ENAMETOOLONG) and target names contain no "/"',
         'qsort() with a comparator that calls two addresses equal keeps some order of them (glibc: stable)',
         'an "address" is a position in the MX list: the same IP listed under two MX names is two candidates',
-        'control/outgoingip, control/outgoingip6 are read by remote_common_setup(), outside this model',
-        'a read error other than reset/timeout/syntax on the first greeting line ends Qremote without a report (kept as in the code: "local problem")'])
+        'control/outgoingip, control/outgoingip6 are read by remote_common_setup(), outside this model'])
 
 
 def differential_env(ctx, name, h, cases, pred, corr, env):
